@@ -47,6 +47,11 @@ FoldAgrees == LET r == FeedAll(0, <<>>, inp) IN
 Resync == \A M \in ProbeMsgs :
             FeedAll(status, buf, Encode(M)).emit = << Encode(M) >>
 
+\* ... and stray data / EOX bytes after M add nothing (M not real-time: a
+\* real-time M inside an open sysex leaves the sysex open)
+ResyncThenStray == \A M \in ProbeMsgs : ~IsRT(Encode(M)) =>
+            FeedAll(status, buf, Encode(M) \o <<0, 127, 247>>).emit = << Encode(M) >>
+
 \* ---- emission for the replay drivers ----
 \* all-integer, self-delimiting row: inp | status, buf | out tokens
 Row == <<Len(inp)>> \o inp \o <<status, Len(buf)>> \o buf \o <<Len(out)>>
